@@ -36,7 +36,9 @@ type simModel struct {
 	yields int
 }
 
-func (m *simModel) WithTools(tools []*schema.ToolInfo) (model.ToolCallingChatModel, error) { return m, nil }
+func (m *simModel) WithTools(tools []*schema.ToolInfo) (model.ToolCallingChatModel, error) {
+	return m, nil
+}
 
 func (m *simModel) turnFor(ctx context.Context, in []*schema.Message) turn {
 	e := m.env
@@ -164,13 +166,14 @@ func wholeStreamChecker(_ context.Context, sr *schema.StreamReader[*schema.Messa
 }
 
 type reactPlan struct {
-	specs   []*toolSpec
-	script  []turn
-	loop    bool
-	maxStep int
-	direct  map[string]struct{}
-	strict  bool
-	failing bool
+	specs    []*toolSpec
+	script   []turn
+	loop     bool
+	maxStep  int
+	direct   map[string]struct{}
+	strict   bool
+	failing  bool
+	modifier bool // a MessageModifier that filters its argument in place
 }
 
 func drawReact(t *kernel.Tape) *reactPlan {
@@ -186,7 +189,7 @@ func drawReact(t *kernel.Tape) *reactPlan {
 		}
 		nc := 1 + t.Plan(3)
 		for i := 0; i < nc; i++ {
-			tn.Calls = append(tn.Calls, callPlan{Name: p.specs[t.Plan(len(p.specs))].Name, Args: fmt.Sprintf("a%d%d", k, i), ID: fmt.Sprintf("k%d.%d", k, i)})
+			tn.Calls = append(tn.Calls, callPlan{Name: p.specs[t.Plan(len(p.specs))].Name, Args: fmt.Sprintf(`{"a":"a%d%d"}`, k, i), ID: fmt.Sprintf("k%d.%d", k, i)})
 		}
 		p.script = append(p.script, tn)
 	}
@@ -208,6 +211,7 @@ func drawReact(t *kernel.Tape) *reactPlan {
 		}
 	}
 	p.strict = t.PlanBool(50)
+	p.modifier = t.PlanBool(25)
 	if turns > 0 && t.PlanBool(10) {
 		// one failing tool call
 		c := p.script[t.Plan(turns)].Calls[0]
@@ -245,7 +249,7 @@ func (p *reactPlan) expect(input []*schema.Message) *reactExpect {
 			ex.err = "max-steps"
 			return ex
 		}
-		ex.history = append(ex.history, msgsCanon(hist))
+		ex.history = append(ex.history, msgsCanon(p.modified(hist)))
 		var tn turn
 		switch {
 		case k < len(p.script):
@@ -282,7 +286,7 @@ func (p *reactPlan) expect(input []*schema.Message) *reactExpect {
 					ex.err = "tool-failure"
 				}
 			}
-			results = append(results, schema.ToolMessage(toolOutput(c.Name, c.Args), c.ID))
+			results = append(results, schema.ToolMessage(expectedContent(p.specs, c.Name, c.Args), c.ID))
 			if _, ok := p.direct[c.Name]; ok && directID == "" {
 				directID = c.ID
 			}
@@ -307,6 +311,46 @@ func (p *reactPlan) expect(input []*schema.Message) *reactExpect {
 	}
 }
 
+// modified models the configured MessageModifier (pure version).
+func (p *reactPlan) modified(hist []*schema.Message) []*schema.Message {
+	if !p.modifier {
+		return hist
+	}
+	var out []*schema.Message
+	nTool := 0
+	for _, m := range hist {
+		if m.Role == schema.Tool {
+			nTool++
+			if nTool%2 == 0 {
+				continue
+			}
+		}
+		out = append(out, m)
+	}
+	return out
+}
+
+// inPlaceModifier is a MessageModifier written with the usual in-place filter idiom: it may
+// scribble over the slice it is given (it gets a copy of the history); it drops every second
+// tool message from what the model sees and blanks the tail of its argument.
+func inPlaceModifier(ctx context.Context, in []*schema.Message) []*schema.Message {
+	out := in[:0]
+	nTool := 0
+	for _, m := range in {
+		if m.Role == schema.Tool {
+			nTool++
+			if nTool%2 == 0 {
+				continue
+			}
+		}
+		out = append(out, m)
+	}
+	for i := len(out); i < len(in); i++ {
+		in[i] = nil
+	}
+	return out
+}
+
 func stripIndex(m *schema.Message) *schema.Message {
 	if m == nil {
 		return nil
@@ -325,7 +369,7 @@ func runC18(t *kernel.Tape, opt core.Opts) *core.Outcome {
 	p := drawReact(t)
 	mcut, mpipe, myields := t.Plan(4), t.PlanBool(50), t.Plan(2)
 	order := t.Plan(2) // which of Generate / Stream is called first
-	o.Sample = fmt.Sprintf("tools=%s script=%v loop=%v maxStep=%d direct=%v strictChunks=%v failing=%v cut=%d pipe=%v first=%d", specsStr(p.specs), p.script, p.loop, p.maxStep, keys(p.direct), p.strict, p.failing, mcut, mpipe, order)
+	o.Sample = fmt.Sprintf("tools=%s script=%v loop=%v maxStep=%d direct=%v strictChunks=%v failing=%v modifier=%v cut=%d pipe=%v first=%d", specsStr(p.specs), p.script, p.loop, p.maxStep, keys(p.direct), p.strict, p.failing, p.modifier, mcut, mpipe, order)
 	o.PlanHash = core.HashString(o.Sample)
 	input := []*schema.Message{schema.UserMessage("hello")}
 	ex := p.expect(input)
@@ -338,6 +382,9 @@ func runC18(t *kernel.Tape, opt core.Opts) *core.Outcome {
 	cfg := &react.AgentConfig{ToolCallingModel: mdl, ToolsConfig: compose.ToolsNodeConfig{Tools: env.build(p.specs)}, MaxStep: p.maxStep, ToolReturnDirectly: p.direct}
 	if !p.strict {
 		cfg.StreamToolCallChecker = wholeStreamChecker
+	}
+	if p.modifier {
+		cfg.MessageModifier = inPlaceModifier
 	}
 	ag, err := react.NewAgent(context.Background(), cfg)
 	if err != nil {
@@ -446,6 +493,9 @@ func runC18(t *kernel.Tape, opt core.Opts) *core.Outcome {
 	if len(p.direct) > 0 {
 		o.Stat("probe.return_directly_configured", 1)
 	}
+	for _, v := range env.problems {
+		o.Violate(v.Class, v.Msg)
+	}
 	for k, v := range env.faults {
 		o.Stat("fault."+k, v)
 	}
@@ -482,9 +532,9 @@ func keys(m map[string]struct{}) []string {
 
 func init() {
 	core.Register(&core.Profile{
-		ID: "C18", Engine: "agentsim", Quick: 3000, Thorough: 80000, ThoroughSeeds: 3, Run: runC18,
-		Rule:   "each run draws a model script (0-3 tool-calling turns with 1-3 calls each, then a final answer, or an endless script), a chunking of every model message (tool calls first for the default checker, or text first with a whole-stream checker; leading empty chunks; pipe or array), 1-3 tools with yields, a return-directly set, a step limit, optionally a failing tool; Generate and Stream are both called; oracle: k-th model call sees original + every earlier assistant message + its tool results in call order, the answer is the first message without tool calls or the return-directly tool's message, step-limit error otherwise, Generate = concat(Stream)",
-		Real:   agentReal, Stub: agentStub,
+		RaceQuick: 200, RaceThorough: 3000, ID: "C18", Engine: "agentsim", Quick: 3000, Thorough: 80000, ThoroughSeeds: 3, Run: runC18,
+		Rule: "each run draws a model script (0-3 tool-calling turns with 1-3 calls each, then a final answer, or an endless script), a chunking of every model message (tool calls first for the default checker, or text first with a whole-stream checker; leading empty chunks; pipe or array), 1-3 tools with yields, a return-directly set, a step limit, optionally a failing tool; Generate and Stream are both called; oracle: k-th model call sees original + every earlier assistant message + its tool results in call order, the answer is the first message without tool calls or the return-directly tool's message, step-limit error otherwise, Generate = concat(Stream)",
+		Real: agentReal, Stub: agentStub,
 		Faults: []string{"model chunking", "tool completion order", "step limit", "tool failure"},
 	})
 }
@@ -504,7 +554,7 @@ func runC09React(t *kernel.Tape, opt core.Opts) *core.Outcome {
 	for i := range kinds {
 		kinds[i] = t.Plan(2)
 	}
-	o.Sample = fmt.Sprintf("react-concurrent callers=%d kinds=%v tools=%s script=%v loop=%v maxStep=%d direct=%v strict=%v", nc, kinds, specsStr(p.specs), p.script, p.loop, p.maxStep, keys(p.direct), p.strict)
+	o.Sample = fmt.Sprintf("react-concurrent callers=%d kinds=%v tools=%s script=%v loop=%v maxStep=%d direct=%v strict=%v modifier=%v", nc, kinds, specsStr(p.specs), p.script, p.loop, p.maxStep, keys(p.direct), p.strict, p.modifier)
 	o.PlanHash = core.HashString(o.Sample)
 	s := kernel.New(t, 300)
 	defer s.Close()
@@ -512,6 +562,9 @@ func runC09React(t *kernel.Tape, opt core.Opts) *core.Outcome {
 	env := newEnv(s)
 	mdl := &simModel{env: env, script: p.script, loop: p.loop, cut: mcut, pipe: mpipe, strict: p.strict, yields: 1}
 	cfg := &react.AgentConfig{ToolCallingModel: mdl, ToolsConfig: compose.ToolsNodeConfig{Tools: env.build(p.specs)}, MaxStep: p.maxStep, ToolReturnDirectly: p.direct}
+	if p.modifier {
+		cfg.MessageModifier = inPlaceModifier
+	}
 	if !p.strict {
 		cfg.StreamToolCallChecker = wholeStreamChecker
 	}
